@@ -108,6 +108,12 @@ pub fn build_template(t: &str, src: &Path, dst: &Path, names: &[&str]) {
             add("c-Y".into(), 'Y', 7);
             add("same-S".into(), 'S', 4);
         }
+        "T9" => {
+            add("a-Z".into(), 'Z', 9);
+            add("sub2/b-A".into(), 'A', 600_001);
+            add("c-Y".into(), 'Y', 7);
+            add("same-S".into(), 'S', 4);
+        }
         "T8" => {
             for (k, n) in ["a-Z", "sub2/b-A", "c-Y", "sub2/d-M"].iter().enumerate() {
                 add((*n).to_string(), n.chars().last().unwrap_or('A'), 6 + k);
@@ -122,7 +128,7 @@ pub fn build_template(t: &str, src: &Path, dst: &Path, names: &[&str]) {
         }
         _ => {}
     }
-    if t == "T7" || t == "T8" {
+    if t == "T7" || t == "T8" || t == "T9" {
         // minimal tail: one destination-only file (deleted with --delete) and one in a directory of its own
         put_file(dst, "only-dst", b"dst only", 1_400_000_000, 0);
         put_file(dst, "sub/only-dst-2", b"dst only 2", 1_400_000_001, 0);
@@ -509,6 +515,72 @@ pub fn run_c04(ctx: &Ctx) -> ! {
         violations.extend(order_part(thorough, &evals));
     }
     let order_runs = evals.load(Ordering::Relaxed) - orders_before;
+    // environment errors: the k-th file-system-mutating (or pipe-writing) libc call of the copia process FAILS
+    // (ENOSPC / EIO) instead of running, for EVERY k, in all three directions: a run that exits 0 must still have
+    // delivered exactly its plan, a run that reports failure must have touched nothing outside it
+    let mut fault_runs = 0u64;
+    if std::env::var("VH_NO_IOFAULT").is_err() {
+        let errnos: &[i32] = if thorough { &[28, 5, 27] } else { &[28] };
+        let jobs: Vec<(&'static str, i32)> = ["local", "pull", "push"].iter().flat_map(|d| errnos.iter().map(move |e| (*d, *e))).collect();
+        let res: Vec<(u64, Vec<Violation>)> = jobs
+            .par_iter()
+            .map(|&(dir, errno)| {
+                let c = Cfg { dir, delete: true, exclude: "", jobs: 1, verbose: false, template: "T9" };
+                let mut runs = 0u64;
+                let mut vs = Vec::new();
+                // reference run in log mode: how many mutating calls are there?
+                let p0 = prepare(&c, &["a"], "c04io");
+                let logp = p0.env.sc.path("shim.log");
+                let roots = format!("{}:{}", p0.env.src().display(), p0.env.dst().display());
+                let base_env = |mode: &str, k: Option<u64>, logp: &Path| {
+                    let mut e = vec![("LD_PRELOAD".to_string(), crate::e3::SHIM.to_string()), ("VSHIM_MODE".to_string(), mode.to_string()), ("VSHIM_ROOT".to_string(), roots.clone()), ("VSHIM_LOG".to_string(), logp.to_string_lossy().into_owned()), ("TOKIO_WORKER_THREADS".to_string(), "1".to_string())];
+                    if let Some(k) = k {
+                        e.push(("VSHIM_FAIL_AT".to_string(), k.to_string()));
+                        e.push(("VSHIM_FAIL_ERRNO".to_string(), errno.to_string()));
+                    }
+                    e
+                };
+                let out0 = run_sync_env(&p0.env, &c, &[], None, &base_env("log", None, &logp));
+                runs += 1;
+                if out0.code != Some(0) || c04_oracle(&c, &p0, &out0).is_some() {
+                    machinery_error(format!("C04 I/O-fault part: the fault-free {dir} run under the logger is not clean: exit {:?} {}", out0.code, out0.stderr.lines().last().unwrap_or("")));
+                }
+                let n = std::fs::read_to_string(&logp).map(|t| t.lines().count() as u64).unwrap_or(0);
+                if n < 5 {
+                    machinery_error(format!("C04 I/O-fault part: only {n} mutating calls logged for {dir}"));
+                }
+                drop(p0);
+                for k in 1..=n {
+                    let p = prepare(&c, &["a"], "c04io");
+                    // the roots differ per scratch: recompute
+                    let roots_k = format!("{}:{}", p.env.src().display(), p.env.dst().display());
+                    let logk = p.env.sc.path("shim.log");
+                    let mut e = base_env("inject", Some(k), &logk);
+                    for kv in e.iter_mut() {
+                        if kv.0 == "VSHIM_ROOT" {
+                            kv.1 = roots_k.clone();
+                        }
+                    }
+                    let out = run_sync_env(&p.env, &c, &[], None, &e);
+                    runs += 1;
+                    let failed_call = std::fs::read_to_string(&logk).ok().and_then(|t| t.lines().find(|l| l.ends_with("FAILED")).map(|l| l.split('\t').skip(2).take(2).collect::<Vec<_>>().join(" ")));
+                    let Some(failed_call) = failed_call else { continue }; // fewer calls on this path: nothing was injected
+                    if let Some((kind, m, path)) = c04_oracle(&c, &p, &out) {
+                        vs.push(Violation::new(&kind, format!("[{} with libc call #{k} ({}) failing with errno {errno}] exit {:?}: {m}; stderr tail: {}", cfg_name(&c), failed_call.rsplit('/').next().unwrap_or(""), out.code, out.stderr.lines().last().unwrap_or("")), json!({"config": cfg_name(&c), "path": path, "io_fault": {"k": k, "errno": errno}})).with("direction", json!(dir)).with("fault", json!("io_error")));
+                        if vs.len() >= 2 {
+                            break;
+                        }
+                    }
+                }
+                (runs, vs)
+            })
+            .collect();
+        for (r, vs) in res {
+            fault_runs += r;
+            violations.extend(vs);
+        }
+        evals.fetch_add(fault_runs, Ordering::Relaxed);
+    }
     // local direction: every interleaving (within a preemption bound) of the parallel transfers' libc calls,
     // decided by the thread-level scheduler (E6) on the real multi-threaded process
     let mut tsched_rows: Vec<Value> = Vec::new();
@@ -544,6 +616,7 @@ pub fn run_c04(ctx: &Ctx) -> ! {
         .set("distinct_nontrivial", changed.load(Ordering::Relaxed))
         .set("configurations", cfgs.len() as u64)
         .set("ordered_runs", order_runs)
+        .set("io_fault_runs", fault_runs)
         .set("thread_schedules_local", tsched_schedules)
         .set("thread_scheduling_steps_local", tsched_steps)
         .set("thread_level_exploration", Value::Array(tsched_rows))
